@@ -195,9 +195,9 @@ def check(ctx, prop):
         "model_config": "MC_%s_%s.cfg" % (fam, ctx.tier),
         "traces_validated_against_impl": len(runs), "trace_events": len(rows),
         "evaluations": len(reqs), "distinct_nontrivial": vac["nontrivial"], "vacuity": vac,
-        "rule": ("C24: evaluations = requests sent through handler.Handle and judged; non-trivial = requests in which at least one addressed item is NOT authorized for the principal (the property's antecedent holds)"
+        "rule": ("C24: evaluations = requests sent through handler.Handle and judged; non-trivial = distinct (request, permissions, auto-create, environment, store contents) cases in which at least one addressed item is NOT authorized for the principal (the property's antecedent holds)"
                  if not lease else
-                 "C19: evaluations = requests judged; non-trivial = produce requests with at least one partition whose lease is not held after the request (other owner / shut down / etcd unreachable) or mixing held and not-held partitions"),
+                 "C19: evaluations = requests judged; non-trivial = distinct (request, lease state per partition, environment, store contents) produce cases with at least one partition whose lease is not held after the request (other owner / shut down / etcd unreachable)"),
         "deviation_schedules": devs, "conformance": ("drift" if drift else "accepted"), "conformance_detail": conf,
         "binding_self_test": st,
         "samples": [scheds[0], scheds[ndev], scheds[-1], runs[0][:3]],
@@ -230,6 +230,12 @@ def authorized(ev, it):
     return (need, it["name"]) in perms or (need, "*") in perms
 
 
+def case_key(r):
+    """Identity of a judged case: request, permissions, configuration and the environment the guards read."""
+    return json.dumps([r["mapi"], r["tg"], sorted(map(tuple, r["perms"])), r["auto"], r["health"], r["storeUp"], r["leaseUp"],
+                       [[it["owner0"], it["owns1"], it["owner1"]] for it in r["items"]], r["st"]], sort_keys=True)
+
+
 def vacuity(prop, reqs):
     if not reqs:
         raise Broken("vacuous run: no request was replayed")
@@ -241,7 +247,7 @@ def vacuity(prop, reqs):
         data = sum(1 for r in reqs if any(it["data"] for it in r["items"]))
         if missing or not changed or not data:
             raise Broken("vacuous run: no unauthorized request for %s / requests changing state: %d / replies with record data: %d" % (missing, changed, data))
-        return {"nontrivial": len(unauth), "unauthorized_by_api": {a: sum(1 for r in unauth if r["mapi"] == a) for a in sorted(apis)},
+        return {"nontrivial": len({case_key(r) for r in unauth}), "unauthorized_requests": len(unauth), "unauthorized_by_api": {a: sum(1 for r in unauth if r["mapi"] == a) for a in sorted(apis)},
                 "requests_changing_state": changed, "replies_with_record_data": data,
                 "metadata_unknown_topic_autocreate_unprivileged": sum(1 for r in reqs if r["mapi"] == "Metadata" and r["auto"] and not r["perms"])}
     prod = [r for r in reqs if r["api"] == "Produce" and r["leasing"]]
@@ -254,7 +260,7 @@ def vacuity(prop, reqs):
              "not_leader_replies": sum(1 for r in prod if any(it["code"] == 6 for it in r["items"]))}
     if not prod or not notheld or not mixed or not all(kinds.values()):
         raise Broken("vacuous run: produce=%d notheld=%d mixed=%d kinds=%s" % (len(prod), len(notheld), len(mixed), kinds))
-    return dict(kinds, nontrivial=len(notheld), mixed_held_and_not_held=len(mixed), leased_produce_requests=len(prod))
+    return dict(kinds, nontrivial=len({case_key(r) for r in notheld}), produce_with_unheld_partition=len(notheld), mixed_held_and_not_held=len(mixed), leased_produce_requests=len(prod))
 
 
 def self_test(ctx, prop, runs, lease):
